@@ -280,6 +280,7 @@ func (d *driver) feedback(n int) {
 
 func (d *driver) runSteps(n int, wl workload) {
 	for i := 0; i < n; i++ {
+		vf.Progress()
 		d.step++
 		d.ts += 90
 		d.write(0)
@@ -453,6 +454,7 @@ func runChurn(c *vf.Case, kind zoo.Kind) {
 		payload := make([]byte, 50)
 		ssrc := uint32(100000)
 		cycle := func() {
+			vf.Progress()
 			ssrc++
 			lo := zoo.StreamOpts{SSRC: ssrc, PT: 96, ClockRate: 90000, Nack: true, TWCCID: twccID, RTX: true, FEC: true}
 			linfo := zoo.Info(lo)
